@@ -117,8 +117,10 @@ theorem sqrt_blum_val (p a : Nat) (hp3 : p % 4 = 3) (ha : a ≠ 0) (inv : Bool) 
   have hp2 : p ≠ 2 := by omega
   unfold sqrt sqrtRaw
   rw [if_neg ha, if_neg hp2, if_pos hp3]
-  unfold powmod
-  cases inv <;> simp [Except.map]
+  have key : ∀ n : Nat, powmod a (n : Int) p = .ok (powModNat a n p) := by
+    intro n; unfold powmod; rw [if_pos (Int.natCast_nonneg n), Int.toNat_natCast]
+  simp only [key]
+  rfl
 
 section blum
 variable {p : Nat} [hpf : Fact p.Prime]
